@@ -1,11 +1,27 @@
 ID = 'C16'
-UNITS = {'launch': dict(wrap='wrap.cc', shim=True, new_block=96, cxxflags=['-fno-inline', '-DC16_LAUNCH_ONLY'], cuts=['^_ZNSt6threadC2IRFv']),
+UNITS = {'launch': dict(wrap='wrap.cc', shim=True, new_block=96, cxxflags=['-fno-inline', '-DC16_LAUNCH_ONLY', '-DVERIF_RACE_HOOK'],
+                        gen_defs=['VERIF_ATOMIC_HOOK', 'VERIF_NEW_U64']),
          'tools': dict(wrap='wrap.cc', new_block=96, per_harness={'h_workers.c': {'gen_defs': ['VERIF_SEQ']}})}
-BOUNDS = 'T in {2,3} worker threads, range length 0..4, block size 1..2, at most ROUNDS-1 context switches per thread'
+BOUNDS = ('h_workers: T in {2,3} worker threads, range length 0..4, block size 1..2, at most ROUNDS-1 context switches per thread. '
+          'h_launch: T in 1..3 threads, range 0..4, block size symbolic in [1,4] or fixed; schedules: K1 = workers run to completion in '
+          'creation order, K2 = every interleaving of the atomic operations of workers and launcher with at most one context switch '
+          'per thread, "race" cells = the one schedule in which every worker claims exactly one block before any callback runs; '
+          'unordered_set shim capacity 4; at most 4 threads / 6 set objects / 2 atomic words tracked by the model (exceeding = reported)')
 STUBS = ['callback = harness function recording (value, thread) and returning a symbolic truth bit',
-         'atomics: sequentially consistent, bounded-round sequentialisation (engine/rt/rt_model.c verif_atomic_addr)']
-OUTSIDE = ['std::thread creation/join in parallel_range itself (see spec notes)', 'more than 3 threads / 4 values', 'relaxed memory (code uses seq_cst only)']
-ASSUMPTIONS = ['sequential consistency of std::atomic<uint64_t> default operations']
+         'atomics: sequentially consistent, bounded-round sequentialisation (h_workers: engine/rt/rt_model.c verif_atomic_addr; h_launch: the same scheme in the harness, shared words found by address)',
+         'std::thread::_M_start_thread (h_launch.c): thread becomes joinable, the _State is taken from the unique_ptr, its virtual _M_run() (vtable slot 2) runs at creation, then the state is destroyed through its deleting destructor (slot 1); the std::thread constructor template itself is real libstdc++ code',
+         'std::thread::join (h_launch.c): clears the id, counts; joining a non-joinable thread is a failure. std::thread::~thread / std::terminate are the real code / a failure',
+         'std::thread::_State::~_State (empty), std::thread::hardware_concurrency = 2, phosg::now = 0, usleep = no-op (progress function is nullptr, not reached)',
+         'std::unordered_set = engine/shim/unordered_set (fixed capacity 4) with -DVERIF_RACE_HOOK: every access is reported to the harness (data race check)']
+OUTSIDE = ['more than 3 threads / 4 values', 'relaxed memory (code uses seq_cst only)',
+           'h_launch K2 cells: more than one context switch per thread; race cells: any schedule but the stated one',
+           'data races on objects other than std::unordered_set results (the callback\'s own state is the caller\'s)',
+           'detach()-style escapes, hardware_concurrency() default, the progress function (nullptr here)']
+ASSUMPTIONS = ['sequential consistency of std::atomic<uint64_t> default operations',
+               'Itanium C++ ABI vtable layout of std::thread::_State (complete dtor, deleting dtor, _M_run) - checked against the IR at the pinned libstdc++',
+               'operator-new blocks are typed as 64-bit words for CBMC (VERIF_NEW_U64; same memory)',
+               'native replay of a data race: ThreadSanitizer build of the real code with all workers released from a barrier at once']
+
 
 def queries(tier):
     qs = []
@@ -21,22 +37,60 @@ def queries(tier):
                 if R % 2 == 0 and R:
                     cells.append((T, R, 1, 2, K))
     for (T, R, B, blk, K) in cells:
-        maxops = R + 3 + 2
         qs.append(dict(name='workers_T%d_R%d_%s%d_K%d' % (T, R, 'blk' if B else 'one', blk, K), unit='tools', harness='h_workers.c',
                        defs={'T': T, 'RANGE': R, 'BLOCKS': B, 'BLK': blk, 'ROUNDS': K, 'MAXOPS': 3 * R + 4}, unwind=max(R + 3, K + 2),
                        unwindset=','.join('harness.%d:%d' % (i, 3 * R + 6) for i in range(12)), timeout=1800, mem_gb=8,
                        desc='%d workers of %s over %d values, block %d: exactly-once / hit semantics for every schedule with <= %d context switches per thread' % (T, 'parallel_range_blocks' if B else 'parallel_range', R, blk, K - 1),
                        bounds='T=%d range=%d block=%d rounds=%d' % (T, R, blk, K)))
-    lc = [(2, 2, 0, 1), (2, 3, 1, 0), (2, 4, 1, 0)] if tier == 'quick' else [(T, R, B, blk) for T in (1, 2, 3) for R in (0, 1, 2, 3, 4) for (B, blk) in ((0, 1), (1, 0))]
-    for (T, R, B, blk) in lc:
-        qs.append(dict(name='launch_T%d_R%d_%s' % (T, R, ('blk%d' % blk if blk else 'blksym') if B else 'one'), unit='launch', harness='h_launch.c',
-                       defs={'T': T, 'RANGE': R, 'BLOCKS': B, 'BLK': blk}, unwind=max(R, T, 4) + 4, timeout=900, mem_gb=8, object_bits=13,
-                       desc='real %s body (thread creation, thread_num, join, result) with std::thread modelled as run-at-creation; %d threads, %d values, <=1 hit' % ('parallel_range_blocks' if B else 'parallel_range', T, R),
-                       bounds='T=%d range=%d block=%s, sequential thread schedule' % (T, R, blk or 'symbolic in [1,4] (non-dividing sizes must be rejected)')))
-    mc = [(2, 0, 0), (2, 2, 1), (2, 2, 2), (2, 3, 2)] if tier == 'quick' else ([(T, R, 0) for T in (1, 2) for R in (0, 1, 2, 3, 4)] + [(3, R, 0) for R in (0, 1, 2)] + [(3, R, b) for R in (3, 4) for b in (1, 2, 3)])
-    for (T, R, blk) in mc:
-        qs.append(dict(name='multi_T%d_R%d_%s' % (T, R, 'blk%d' % blk if blk else 'blksym'), unit='launch', harness='h_launch.c',
-                       defs={'T': T, 'RANGE': R, 'BLOCKS': 1, 'BLK': blk, 'MULTI': 1}, unwind=max(R, T, 4) + 4, timeout=1200, mem_gb=20, object_bits=13,
-                       desc='real parallel_range_blocks_multi body: result set == set of values whose callback returned true (any subset), every value visited exactly once; %d threads, %d values' % (T, R),
-                       bounds='T=%d range=%d block=%s, sequential thread schedule, unordered_set shim capacity 4' % (T, R, blk or 'symbolic in [1,4]')))
-    return qs
+
+    def launch(kind, T, R, B, blk, K=1, one_each=False):
+        multi = kind != 'launch'
+        defs = {'T': T, 'RANGE': R, 'BLOCKS': B, 'BLK': blk}
+        if multi:
+            defs['MULTI'] = 1
+        if K > 1:
+            defs['ROUNDS'] = K
+        if one_each:
+            defs['ONE_EACH'] = 1
+        fn = 'parallel_range_blocks_multi' if multi else ('parallel_range_blocks' if B else 'parallel_range')
+        sched = ('the schedule in which each of the %d workers claims one block before any callback runs' % T) if one_each else \
+                ('every interleaving with <= %d context switch per thread (workers and launcher)' % (K - 1)) if K > 1 else 'workers run to completion in creation order'
+        d = dict(name='%s_T%d_R%d_%s%s' % (kind, T, R, ('blk%d' % blk if blk else 'blksym') if B else 'one', '_K%d' % K if (K > 1 and not one_each) else ''),
+                 unit='launch', harness='h_launch.c', defs=defs, unwind=max(R, T, 4) + 4,
+                 unwindset=','.join('read_schedule.%d:%d' % (i, 3 * R + 7) for i in range(4)), timeout=900, mem_gb=8, object_bits=13,
+                 desc='real %s body (std::thread constructor, thread_num, join loop, result%s) over a generic std::thread model; %d threads, %d values; %s'
+                      % (fn, ', merge of the per-thread sets, no data race on the sets' if multi else ', <=1 hit', T, R, sched),
+                 bounds='T=%d range=%d block=%s, %s%s' % (T, R, blk or 'symbolic in [1,4] (non-dividing sizes must be rejected)', sched, ', unordered_set shim capacity 4' if multi else ''))
+        if kind == 'race':
+            d['real_san'] = 'thread'  # the replay of a data race is a ThreadSanitizer report against the real code
+        qs.append(d)
+
+    if True:  # the quick cells are part of both tiers (replay looks queries up in the thorough list)
+        # K1: launch/join/result logic; T > RANGE cells: a worker that must not visit anything (seeded C16-r2m1)
+        for (T, R, B, blk) in [(2, 2, 0, 1), (2, 3, 1, 0), (2, 4, 1, 0), (3, 2, 0, 1), (2, 0, 0, 1), (2, 1, 0, 1)]:
+            launch('launch', T, R, B, blk)
+        # K2: every worker gets work (thread numbers), the launcher may run ahead of the workers (result read before join)
+        for (T, R, B, blk) in [(2, 2, 0, 1), (2, 2, 1, 1)]:
+            launch('launch', T, R, B, blk, K=2)
+        for (T, R, blk) in [(2, 0, 0), (2, 2, 1), (2, 2, 2), (2, 3, 2)]:
+            launch('multi', T, R, 1, blk)
+        launch('race', 2, 2, 1, 1, K=2, one_each=True)
+        launch('race', 3, 3, 1, 1, K=2, one_each=True)
+    if tier != 'quick':
+        for T in (1, 2, 3):
+            for R in (0, 1, 2, 3, 4):
+                for (B, blk) in ((0, 1), (1, 0)):
+                    launch('launch', T, R, B, blk)
+        for (T, R, B, blk) in [(2, 2, 0, 1), (2, 3, 0, 1), (3, 3, 0, 1), (2, 2, 1, 1), (2, 4, 1, 2), (3, 3, 1, 1)]:
+            launch('launch', T, R, B, blk, K=2)
+        for (T, R, blk) in [(T, R, 0) for T in (1, 2) for R in (0, 1, 2, 3, 4)] + [(3, R, 0) for R in (0, 1, 2)] + [(3, R, b) for R in (3, 4) for b in (1, 2, 3)]:
+            launch('multi', T, R, 1, blk)
+        for (T, R, blk) in [(2, 2, 1), (2, 4, 2), (3, 3, 1), (2, 2, 1)]:
+            launch('race', T, R, 1, blk, K=2, one_each=True)
+        launch('multi', 2, 2, 1, 1, K=2)
+    seen = set()
+    out = []
+    for q in qs:
+        if q['name'] not in seen:
+            seen.add(q['name']); out.append(q)
+    return out
